@@ -76,7 +76,9 @@ fn history(out: &mut Out, rng: &mut Prng, len: usize, check_overflow: bool) {
             } else {
                 None
             };
-            let mut msg: MarshalledMessage = MessageBuilder::new().signal("a.b", "M", "/o").build();
+            // either byte order: the serial travels in the message's order, whatever the machine's is
+            let bo = if rng.chance(1, 2) { rustbus::ByteOrder::BigEndian } else { rustbus::ByteOrder::LittleEndian };
+            let mut msg: MarshalledMessage = MessageBuilder::with_byteorder(bo).signal("a.b", "M", "/o").build();
             msg.dynheader.serial = preset.and_then(NonZeroU32::new);
             if rng.chance(1, 2) {
                 msg.body.push_param(rng.next()).unwrap();
@@ -141,6 +143,64 @@ fn history(out: &mut Out, rng: &mut Prng, len: usize, check_overflow: bool) {
     }
 }
 
+
+/// ONE message object sent again and again through an `RpcConn` (the `body.reset()` reuse pattern), other sends and
+/// explicit allocations in between: every transmission gets a fresh, larger serial; what is reported is what is on the wire
+fn reuse_history(out: &mut Out, rng: &mut Prng) {
+    let (conn, mut server) = peer::connect_pair(false);
+    let mut rpc = rustbus::connection::rpc_conn::RpcConn::new(conn);
+    let bo = if rng.chance(1, 2) { rustbus::ByteOrder::BigEndian } else { rustbus::ByteOrder::LittleEndian };
+    let mut reused: MarshalledMessage = MessageBuilder::with_byteorder(bo).call("M").on("/o").with_interface("a.b").at("a.b").build();
+    let mut ops: Vec<String> = Vec::new();
+    let mut observed: Vec<u64> = Vec::new();
+    let mut max_fresh = 0u64;
+    let mut bad: Option<String> = None;
+    let n = 3 + rng.below(5);
+    for k in 0..n {
+        match rng.below(4) {
+            0 => {
+                let s = rpc.alloc_serial().get() as u64;
+                ops.push("a".into());
+                observed.push(s);
+                if s <= max_fresh {
+                    bad = Some(format!("alloc_serial returned {} after {}", s, max_fresh));
+                }
+                max_fresh = s;
+            }
+            1 => {
+                let mut other: MarshalledMessage = MessageBuilder::new().signal("a.b", "S", "/o").build();
+                let reported = rpc.send_message(&mut other).unwrap().write_all().map_err(|e| e.1).unwrap().get() as u64;
+                let on_wire = wire_serial(&peer::drain(&mut server));
+                ops.push("s".into());
+                observed.push(on_wire);
+                if on_wire != reported || on_wire <= max_fresh {
+                    bad = Some(format!("another message sent with serial {} (reported {}) after {}", on_wire, reported, max_fresh));
+                }
+                max_fresh = on_wire;
+            }
+            _ => {
+                reused.body.reset();
+                reused.body.push_param(k as u32).unwrap();
+                let reported = rpc.send_message(&mut reused).unwrap().write_all().map_err(|e| e.1).unwrap().get() as u64;
+                let on_wire = wire_serial(&peer::drain(&mut server));
+                ops.push("s".into());
+                observed.push(on_wire);
+                if on_wire != reported || on_wire == 0 || on_wire <= max_fresh {
+                    bad = Some(format!("transmission {} of a reused message object went out with serial {} (reported {}) after {}", k, on_wire, reported, max_fresh));
+                }
+                max_fresh = on_wire;
+            }
+        }
+    }
+    let next = rpc.alloc_serial().get();
+    let req = format!("c13.run 1 {}", ops.join(","));
+    if let Some(b) = bad {
+        out.violation(&req, &b);
+    }
+    let obs = format!("{} next={}", observed.iter().map(|x| x.to_string()).collect::<Vec<_>>().join(","), next);
+    out.hit("reused_message_history");
+    out.case(&req, &obs, true);
+}
 
 /// serial field of the first frame in `bytes` read by hand (offset 8, byte order from byte 0)
 fn wire_serial(frame: &[u8]) -> u64 {
@@ -437,6 +497,9 @@ pub fn run(cfg: &Cfg) {
     }
     for _ in 0..(if cfg.thorough { 600 } else { 60 }) {
         hello_case(&mut out, &mut rng);
+    }
+    for _ in 0..(if cfg.thorough { 300 } else { 40 }) {
+        reuse_history(&mut out, &mut rng);
     }
     // reply constructors
     let senders: Vec<Option<String>> = vec![None, Some(":1.5".into()), Some("org.example.Caller".into()), Some(":1.4294967295".into()), Some("org.freedesktop.DBus".into())];
